@@ -102,7 +102,7 @@ def run_impl_case(case):
             clock['now'] += timeout
             raise _q.Empty
 
-    saved = _streamer.time
+    saved = getattr(_streamer, 'time', None)        # (the module may not import `time` at all)
     _streamer.time = SimpleNamespace(perf_counter=lambda: clock['now'])
     out = []
     finished = False
@@ -116,7 +116,10 @@ def run_impl_case(case):
         except _Blocked:
             finished = False
     finally:
-        _streamer.time = saved
+        if saved is None:
+            del _streamer.time
+        else:
+            _streamer.time = saved
     return {'finished': finished, 'batches': out}
 
 
